@@ -1148,7 +1148,13 @@ func (ctx *internalContext) Cancel() {
 
 	// Ignore disposed contexts
 	if ctx.didDispose {
+		// A build may still be running while an earlier "Dispose" call waits for
+		// it. Don't return before that build has ended.
+		build := ctx.activeBuild
 		ctx.mutex.Unlock()
+		if build != nil {
+			build.waitGroup.Wait()
+		}
 		return
 	}
 
@@ -1168,7 +1174,13 @@ func (ctx *internalContext) Dispose() {
 	// Only dispose once
 	ctx.mutex.Lock()
 	if ctx.didDispose {
+		// A build may still be running while an earlier "Dispose" call waits for
+		// it. Don't return before that build has ended.
+		build := ctx.activeBuild
 		ctx.mutex.Unlock()
+		if build != nil {
+			build.waitGroup.Wait()
+		}
 		return
 	}
 	ctx.didDispose = true
